@@ -332,6 +332,9 @@ Definition not_skipped (t : test) : bool := match find_skip (t_markers t) with N
 Definition raw_of_harness (runs_body : bool) (compiles body_ok : test -> bool) (t : test) : raw :=
   if compiles t && (negb runs_body || body_ok t) then RPass else RFail.
 
+(* did the body of t execute at all in the generated harness? *)
+Definition body_ran (runs_body : bool) (compiles : test -> bool) (t : test) : bool := runs_body && compiles t.
+
 (* the truthful raw verdict the property asks for *)
 Definition raw_truth (compiles body_ok : test -> bool) (t : test) : raw :=
   if compiles t && body_ok t then RPass else RFail.
